@@ -405,6 +405,7 @@ func checkC18(w *World, r *Report) {
 		})
 	}
 	r.floor("mutating operations in render-reachable functions", nSinks, 50)
+	checkNoAliasesIntoData(w, r, reach)
 
 	// R18.1
 	n := 0
@@ -435,3 +436,85 @@ func checkC18(w *World, r *Report) {
 }
 
 var _ = fmt.Sprintf
+
+// checkNoAliasesIntoData — R18.3 / R18.4: the render reads the caller's data, it does not get a
+// handle on it.  (R18.3) render-reachable code never takes the address of a reflected value
+// (reflect.Value.Addr / UnsafeAddr): a pointer into the caller's slice or struct handed to a
+// template lets pointer-receiver methods called from the template write into the caller's
+// data.  (R18.4) a data value (static type interface{}) is never asserted to an interface from
+// outside the package other than the read-only ones (fmt.Stringer, error, fmt.Formatter,
+// fmt.GoStringer, json.Marshaler, encoding.TextMarshaler): io.WriterTo, io.Reader and the like
+// consume or advance the value they belong to (a *bytes.Buffer printed through WriteTo is empty
+// afterwards).
+func checkNoAliasesIntoData(w *World, r *Report, reach map[*ssa.Function]bool) {
+	readOnly := map[string]bool{
+		"fmt.Stringer": true, "error": true, "fmt.Formatter": true, "fmt.GoStringer": true,
+		"encoding/json.Marshaler": true, "encoding.TextMarshaler": true, "sort.Interface": false,
+	}
+	nA, nI, bad := 0, 0, 0
+	for _, fn := range w.pkgFuncs() {
+		if !reach[fn] {
+			continue
+		}
+		instrsOf(fn, func(in ssa.Instruction) {
+			switch x := in.(type) {
+			case *ssa.Call:
+				g := x.Call.StaticCallee()
+				if g == nil {
+					return
+				}
+				switch g.String() {
+				case "(reflect.Value).Addr", "(reflect.Value).UnsafeAddr", "(reflect.Value).UnsafePointer":
+					nA++
+					// the address of something this render allocated itself is its own business
+					f := &freshness{w: w, retMemo: map[*ssa.Function]int{}}
+					if f.fresh(x.Call.Args[0], map[ssa.Value]bool{}) {
+						r.ok("R18.3", ssaName(fn), g.Name()+" of a reflected value", w.posOf(in.Pos()), "the value was allocated by this render", true)
+						return
+					}
+					bad++
+					r.bad("R18.3", ssaName(fn), g.Name()+" of a reflected value", w.posOf(in.Pos()), "the address of (a part of) a value reached from the context is taken: what the template gets is a pointer into the caller's data, so pointer-receiver methods called from the template — or any later write through it — modify the data passed to Render")
+				}
+			case *ssa.TypeAssert:
+				it, ok := x.AssertedType.Underlying().(*types.Interface)
+				if !ok || it.NumMethods() == 0 {
+					return
+				}
+				xt, ok := x.X.Type().Underlying().(*types.Interface)
+				if !ok || xt.NumMethods() != 0 {
+					return // not a data value (an io.Writer, a Node …)
+				}
+				name := types.TypeString(x.AssertedType, nil)
+				if n, ok := x.AssertedType.(*types.Named); ok && n.Obj().Pkg() != nil && n.Obj().Pkg().Path() == twigPath {
+					return // the package's own interfaces
+				}
+				if _, isNamedT := x.AssertedType.(*types.Named); !isNamedT {
+					// an anonymous interface: judged by its methods
+					okAll := true
+					for i := 0; i < it.NumMethods(); i++ {
+						switch it.Method(i).Name() {
+						case "String", "Error", "Len", "IsZero", "Unwrap", "Is", "As":
+						default:
+							okAll = false
+						}
+					}
+					if okAll {
+						return
+					}
+				}
+				nI++
+				if readOnly[name] {
+					r.ok("R18.4", ssaName(fn), "data value asserted to "+name, w.posOf(in.Pos()), "read-only interface", false)
+					return
+				}
+				bad++
+				r.bad("R18.4", ssaName(fn), "data value asserted to "+name, w.posOf(in.Pos()), "a value from the context is asked for the interface "+name+", whose methods consume or modify their receiver: using it on the caller's value (a *bytes.Buffer, a reader) changes that value — the same context no longer renders the same afterwards")
+			}
+		})
+	}
+	r.Counts["address-taking reflect calls on render paths"] = nA
+	r.Counts["assertions of data values to foreign interfaces"] = nI
+	if bad == 0 {
+		r.ok("R18.3", "(package)", "no alias into the caller's data is created", "-", fmt.Sprintf("%d address-taking reflect calls, %d assertions of data values to foreign interfaces on render paths; all harmless", nA, nI), false)
+	}
+}
